@@ -35,6 +35,9 @@ func NewUDP(ns string, ignoreHost bool, estimatedTags, batch int) (*UDP, error) 
 	if err != nil {
 		return nil, err
 	}
+	if uc, ok := pc.(*net.UDPConn); ok {
+		_ = uc.SetReadBuffer(4 << 20) // room for a queue of largest-size datagrams while the parser is held
+	}
 	u := &UDP{Addr: pc.LocalAddr().String(), Sink: fakes.NewSink(), St: fakes.NewStatser(), panicCh: make(chan string, 4), done: make(chan struct{})}
 	ch := make(chan []*statsd.Datagram, 4)
 	recv := statsd.NewDatagramReceiver(ch, func() (net.PacketConn, error) { return pc, nil }, 1, batch)
@@ -55,6 +58,7 @@ func NewUDP(ns string, ignoreHost bool, estimatedTags, batch int) (*UDP, error) 
 	}()
 	go guard("parser", func() { dp.Run(ctx) })
 	go dp.RunMetricsContext(ctx)
+	go recv.RunMetricsContext(ctx)
 	u.client, err = net.Dial("udp", u.Addr)
 	if err != nil {
 		cancel()
@@ -125,6 +129,13 @@ func (u *UDP) Counters() (metrics, events, bad float64) {
 	}
 	b, _ := u.St.GaugeValue("parser.bad_lines_seen")
 	return u.St.CountValue("parser.metrics_received"), u.St.CountValue("parser.events_received"), b
+}
+
+// Received returns the cumulative receiver.datagrams_received: what the kernel handed to the receiver (a datagram
+// the kernel dropped because the socket buffer was full is not in it).
+func (u *UDP) Received() float64 {
+	u.Counters()
+	return u.St.CountValue("receiver.datagrams_received")
 }
 
 // Close stops receiver and parser and waits for the receiver to release its socket.
